@@ -268,6 +268,17 @@ def deep_header_records(rng):
             except Exception as e:
                 rec['out'] = {'err': type(e).__name__}
             out.append(rec)
+    # a Merkle UPDATE cell whose first stored hash and first child are the expected tree is not a Merkle PROOF
+    for old in (block, pruned(block)):
+        upd_as_proof = mupdate(old, pruned(sub))
+        heap, roots, _ = ck.project([upd_as_proof])
+        rec = {'op': 'proof', 'label': 'forged_merkle_update_as_proof', 'genuine': 0, 'cells': heap, 'proof': roots[0], 'want': list(block.hash)}
+        try:
+            check_proof(upd_as_proof, block.hash)
+            rec['out'] = {'ok': 1}
+        except Exception as e:
+            rec['out'] = {'err': type(e).__name__}
+        out.append(rec)
     # the same through the generic check: a Merkle proof cell over the pruned block
     # (stored hash and depth are those of the ORIGINAL block, which is what a prover writes)
     mp = Builder(type_=3).store_uint(3, 8).store_bytes(block.get_hash(0)).store_uint(block.get_depth(0), 16).store_ref(bp).end_cell()
@@ -364,7 +375,8 @@ def account_records(rng):
     roots = [mproof(block_p), mproof(state_p)]
     blk = BlockIdExt(0, None, 100, block.hash, b'\x22' * 32)
     target, acc = accts[rng.randrange(n)]
-    other_state, *_ = make_state(rng, [(target, account_cell(rng, target))])
+    other_acc = account_cell(rng, target)
+    other_state, *_ = make_state(rng, [(target, other_acc)])
     other_state_p = other_state
     absent = Address((0, bytes(rng.getrandbits(8) for _ in range(32))))
     cases = [
@@ -376,6 +388,10 @@ def account_records(rng):
         ('forged_wrong_block', False, roots, BlockIdExt(0, None, 100, bytes(rng.getrandbits(8) for _ in range(32)), b'\x22' * 32), target, acc),
         ('forged_other_state', False, [roots[0], mproof(other_state_p)], blk, target, acc),
         ('forged_swapped_roots', False, [roots[1], roots[0]], blk, target, acc),
+        # a state proof cell that CARRIES the committed state hash but whose child is another state
+        ('forged_state_proof_stored_hash_only', False,
+         [roots[0], Builder(type_=3).store_uint(3, 8).store_bytes(state_p.get_hash(0)).store_uint(state_p.get_depth(0), 16).store_ref(other_state_p).end_cell()],
+         blk, target, other_acc),
         ('forged_single_root', False, [roots[0]], blk, target, acc),
     ]
     if target.hash_part in EXTRA:
